@@ -2,6 +2,10 @@ package main
 
 import (
 	"fmt"
+	"os"
+	"path/filepath"
+	"runtime"
+	"time"
 
 	"github.com/ipld/go-ipld-prime/datamodel"
 	basicnode "github.com/ipld/go-ipld-prime/node/basic"
@@ -46,7 +50,10 @@ func runE2ERace(dir string, seed uint64, tier string) {
 		if onlyCase != 0 && onlyCase != id {
 			continue
 		}
-		runE2ECase(scratch, id, sc.String(), sc, data, sel, func(int, string, string, string, interface{}, interface{}) {})
+		caseID, caseSc, caseData := id, sc, data
+		e2eWatchdog(res, dir, caseID, sc.String(), func() {
+			runE2ECase(scratch, caseID, caseSc.String(), caseSc, caseData, sel, func(int, string, string, string, interface{}, interface{}) {})
+		})
 		res.hist(fmt.Sprintf("transfer pull:%v", sc.Pull))
 		res.distinct(sc.String())
 	}
@@ -63,7 +70,8 @@ func runE2ERace(dir string, seed uint64, tier string) {
 		if onlyCase != 0 && onlyCase != id {
 			continue
 		}
-		runE2ERestartCase(scratch, id, sc.String(), sc, data, sel)
+		caseID, caseSc, caseData := id, sc, data
+		e2eWatchdog(res, dir, caseID, sc.String(), func() { runE2ERestartCase(scratch, caseID, caseSc.String(), caseSc, caseData, sel) })
 		res.hist(fmt.Sprintf("interrupted pull:%v", sc.Pull))
 		res.distinct(sc.String())
 	}
@@ -76,4 +84,27 @@ func runE2ERace(dir string, seed uint64, tier string) {
 	res.Extra["race_reports_in_library"] = len(races)
 	res.Rule = "race-instrumented binary: plain transfers (push / pull, limits raised in rounds, finalization, forced pause, pauses by either side, per-channel store) and interrupted transfers (link cut, process restarts, restart by either side) between two real managers over real graphsync and a libp2p mock network; judged: data races whose racing access is library code; interleavings are whatever the scheduler produces (a test, not a proof)"
 	res.write(dir)
+}
+
+// e2eWatchdog runs one real-transfer scenario; if it does not come back (every wait inside a scenario
+// has a deadline of its own, so this means a call into the library or its stack never returned) the
+// goroutine dump is kept next to the results, a C20 failure is recorded and the scenario is abandoned.
+func e2eWatchdog(res *suiteResult, dir string, id int, label string, f func()) bool {
+	done := make(chan struct{})
+	go func() {
+		defer close(done)
+		f()
+	}()
+	select {
+	case <-done:
+		return true
+	case <-time.After(75 * time.Second):
+		buf := make([]byte, 8<<20)
+		n := runtime.Stack(buf, true)
+		path := filepath.Join(dir, fmt.Sprintf("hang-%s-%d.txt", res.Suite, id))
+		_ = os.WriteFile(path, buf[:n], 0o644)
+		res.fail(monitorFailure{Property: "C20", CaseID: id, Signature: "real-transfer-scenario-hangs", What: "a scenario between two real nodes did not return within 75s although every wait in it has a deadline: a call into the library never returned (goroutine dump in " + path + ")", Input: label})
+		res.hist("scenario-hung")
+		return false
+	}
 }
